@@ -1,5 +1,5 @@
 """registry — which rules decide which property (and with what configuration)."""
-from rules import codec, writer, iterator, writer_abs, sizes, flow, derive
+from rules import codec, writer, iterator, writer_abs, sizes, flow, derive, closing
 
 RULES = {
     "R-PANIC-VINT": codec.r_panic_vint,
@@ -43,6 +43,8 @@ RULES = {
     "R-OVERRUN-ALL": flow.r_overrun_all,
     "L-BUFFER-PROGRESS": flow.r_buffer_progress,
     "R-RECOVER-STRETCH": flow.r_recover_stretch,
+    "R-ENDED-BY-TABLE": closing.r_ended_by_table,
+    "R-CLOSE-UNKNOWN-ONLY": closing.r_close_unknown_only,
     "R-DERIVE-EXPANSION": derive.r_derive_expansion,
     "R-DERIVE-REJECTS": derive.r_derive_rejects,
 }
@@ -67,7 +69,7 @@ PROPERTIES = {
                        "and the payload decoders' length classes.  Not decided: that the decoded number/string equals the bytes' value.",
     },
     "C06": {
-        "rules": ["R-STACK-END", "R-CLOSE", "R-OVERRUN-ALL", "R-SHARED-MATCHER", "R-TOL-STRICT"],
+        "rules": ["R-STACK-END", "R-CLOSE", "R-OVERRUN-ALL", "R-SHARED-MATCHER", "R-TOL-STRICT", "R-CLOSE-UNKNOWN-ONLY"],
         "level": "other",
         "explanation": "Typestate/value-flow rules over read_next and header validation: only End-form tags are stored on the open-master stack; the "
                        "stack shrinks only at the three closing sites (exhausted known-size masters drained innermost-first before the next header, "
@@ -85,13 +87,18 @@ PROPERTIES = {
                        "= minimal width.  Equality of the tag sequence after a round trip is not decided.",
     },
     "C07": {
-        "rules": ["R-UNKNOWN-MARKER"],
+        "rules": ["R-UNKNOWN-MARKER", "R-ENDED-BY-TABLE", "R-CLOSE-UNKNOWN-ONLY", "R-CLOSE"],
         "level": "other",
-        "explanation": "Only the marker clause: what start_unknown_size_tag emits is in the reader's reserved table for that width, and the master is "
-                       "recorded as Unknown.  Which element closes which unknown-size master is the semantics of the closing rule and is not decided.",
+        "explanation": "The marker clause (what start_unknown_size_tag emits is in the reader's reserved table for that width, and the master is "
+                       "recorded as Unknown); the closing predicate decided per class of declared paths by abstract interpretation (an ancestor at any "
+                       "position of a path of any length, a sibling, a root element close the master; an unrelated element, a global element and an "
+                       "unspecified id do not); the predicate is only ever consulted for unknown-size masters (matcher and read_next, with every open "
+                       "master known-size, never ask it); and the shape of the three closing sites of read_next (all exhausted known-size masters "
+                       "before the next header, unknown-size masters popped one by one while the predicate says so, everything at end of input under "
+                       "its switch).  Not decided: that the same tag sequence results for every choice of encodings.",
     },
     "C13": {
-        "rules": ["R-TOL", "R-TOL-DEFAULT"],
+        "rules": ["R-TOL", "R-TOL-DEFAULT", "R-CLOSE-UNKNOWN-ONLY"],
         "level": "other",
         "explanation": "Abstract interpretation of header validation for each of the 8 tolerance masks (bit values themselves derived by abstract "
                        "evaluation of allow_errors): which corruption kinds are constructible per mask, that the size limit and data checks never depend "
@@ -99,7 +106,7 @@ PROPERTIES = {
                        "'Strict items are a prefix of tolerant items' is not decided.",
     },
     "C11": {
-        "rules": ["R-SHARED-MATCHER", "R-WRITER-VALIDATES"],
+        "rules": ["R-SHARED-MATCHER", "R-WRITER-VALIDATES", "R-CLOSE-UNKNOWN-ONLY"],
         "level": "other",
         "explanation": "Who-may-call check for the single shared matcher plus abstract interpretation of the writer's entries per (data type, master "
                        "form, options) class: the matcher is consulted before the first state mutation exactly for specified non-End tags, and a "
